@@ -181,9 +181,9 @@ def window(img, shape=None, slice=None):
             assert(slice[1] - slice[0]) == shape[0]
             assert(slice[3] - slice[2]) == shape[1]
 
-        # return the requested view. Note that numpy will implicitly handle a
-        # third dimension if one is present
-        return img[slice[0]:slice[1], slice[2]:slice[3]]
+        # return the requested view of the last two (row, column) axes: a cube
+        # has its frames first, as in pad and rebin
+        return img[..., slice[0]:slice[1], slice[2]:slice[3]]
 
     else:
         # return the padded array. Note that pad will handle a third dimension
